@@ -182,6 +182,7 @@ fn run_schedule(cfg: &Cfg, ep: Ep, kinds: &[Kind], order: &[Act], case: &str) {
     c.reset();
     c.set_filter(|label, point, _| point.ends_with(".sent") && label.starts_with("caller"));
     c.arm();
+    c.set_relock_delay(3000);
     let labels = ["callerA", "callerB", "callerC"];
     let mut callers: Vec<Caller> = kinds
         .iter()
@@ -587,6 +588,7 @@ pub fn run(cfg: &Cfg) {
         stress(cfg, &mut rng);
     }
     vhost::verif::set_hook(None);
+    report::extra("x_second_lock_acquisitions_after_send", J::U(ctl::global().relock_hits()));
     let hits = ctl::global().hits();
     report::extra("x_hold_point_hits", J::O(hits.iter().map(|(k, v)| (k.to_string(), J::U(*v))).collect()));
     let _ = util::full_script;
